@@ -30,13 +30,14 @@ def load_known_findings():
         if not line.startswith('finding:'):
             continue
         rest = line[len('finding:'):].strip()
-        parts = rest.split(None, 2)
         d = {'text': rest}
-        for tok in parts[:2]:
-            if '=' in tok:
-                k, v = tok.split('=', 1)
-                d[k] = v
-        d['what'] = parts[2] if len(parts) > 2 else ''
+        toks = rest.split()
+        i = 0
+        while i < len(toks) and '=' in toks[i] and toks[i].split('=', 1)[0] in ('property', 'obligation', 'defect', 'witness'):
+            k, v = toks[i].split('=', 1)
+            d[k] = v
+            i += 1
+        d['what'] = ' '.join(toks[i:])
         out.append(d)
     return out
 
@@ -83,12 +84,15 @@ def main(argv=None):
 
     tasks = []
     for t, c in contracts.items():
+        if '#defect:' in t:
+            continue
         if prop in c.props and (a.only in t):
             if not c.cases:
                 print('ERROR contract %s has no cases' % t)
                 return 3
             for i in range(len(c.cases)):
-                tasks.append((t, i, {'seed': seed, 'n_random': 300 if tier == 'quick' else 3000}))
+                tasks.append((t, i, {'seed': seed, 'n_random': 300 if tier == 'quick' else 3000,
+                                     'only': c.only.get(prop)}))
     lem = [(n, p, f) for (n, p, f) in lemmas if prop in p and a.only in n]
     standins = [(n, p, f) for (n, p, f) in api.STANDINS if prop in p and a.only in n]
 
@@ -183,16 +187,56 @@ def main(argv=None):
     os.makedirs(os.path.join(VERIF, 'replay', prop), exist_ok=True)
     nrep = 0
     known_names = set()
+    defect_cache = {}
+    known_by_finding = {}
+
+    def defect_confirmed(f, target):
+        """A finding that names a known-defect formula applies only if the current code is *proved* equal to it."""
+        d = f.get('defect')
+        if not d:
+            return True
+        key = '%s#defect:%s' % (target, d)
+        if key not in defect_cache:
+            ok = False
+            obs = []
+            c = contracts.get(key)
+            if c is not None and c.cases:
+                dtasks = [(key, i, {'seed': seed, 'n_random': 50}) for i in range(len(c.cases))]
+                with mp.get_context('fork').Pool(min(NPROC, len(dtasks))) as pool2:
+                    dres = pool2.map(run.run_case_task, dtasks, chunksize=1)
+                ok = True
+                for r2 in dres:
+                    if r2['status'] != 'ok' or r2.get('violation') or r2.get('unconfirmed'):
+                        ok = False
+                    for ob in r2['obligations']:
+                        d2 = dict(ob)
+                        d2['name'] = '%s/%s/%s/known-defect[%s]/%s' % (prop, short_target(target), r2['case'], d, ob['name'])
+                        d2['kind'] = 'CF'
+                        obs.append(d2)
+                        if ob['status'] != 'proved':
+                            ok = False
+            defect_cache[key] = (ok, obs)
+            if ok:
+                obligations.extend(obs)     # "code == recorded defect formula" are discharged obligations of this run
+        return defect_cache[key][0]
+
+    def listed(names, target):
+        fs = []
+        for n in names:
+            f = match_finding(findings, prop, n)
+            if f is None or not defect_confirmed(f, target):
+                return None
+            fs.append((n, f))
+        return fs
+
     for names, rep in violations:
-        unlisted = [n for n in names if not match_finding(findings, prop, n)]
-        if not unlisted:
-            for n in names:
-                f = match_finding(findings, prop, n)
+        fs = listed(names, rep.get('target'))
+        if fs is not None:
+            for n, f in fs:
                 known_names.add(n)
-                line = 'KNOWN-FINDING: property=%s %s [%s]' % (prop, f['what'], n)
-                if line not in known_lines:
-                    known_lines.append(line)
+                known_by_finding.setdefault(f['text'], (f, []))[1].append(n)
             continue
+        unlisted = [n for n in names if not match_finding(findings, prop, n)] or names
         nrep += 1
         path = os.path.join(VERIF, 'replay', prop, 'violation_%d.json' % nrep)
         rep['property'] = prop
@@ -206,12 +250,10 @@ def main(argv=None):
             print('    ' + dline)
         exit_code = 1
     for (name, goal, desc, r) in nofail:
-        if match_finding(findings, prop, name):
+        fs = listed([name], (r or {}).get('target'))
+        if fs is not None:
             known_names.add(name)
-            f = match_finding(findings, prop, name)
-            line = 'KNOWN-FINDING: property=%s %s [%s]' % (prop, f['what'], name)
-            if line not in known_lines:
-                known_lines.append(line)
+            known_by_finding.setdefault(fs[0][1]['text'], (fs[0][1], []))[1].append(name)
             continue
         nrep += 1
         path = os.path.join(VERIF, 'replay', prop, 'violation_%d.json' % nrep)
@@ -221,6 +263,9 @@ def main(argv=None):
         viol_lines.append('VIOLATION property=%s replay=%s no-failing-input-found' % (prop, path))
         print('  failing obligation: %s' % name)
         exit_code = 1
+    for f, names_ in known_by_finding.values():
+        known_lines.append('KNOWN-FINDING: property=%s %s [%d obligation(s), e.g. %s%s]' % (
+            prop, f['what'], len(names_), names_[0], '; code proved equal to recorded defect formula %r' % f['defect'] if f.get('defect') else ''))
     for ln in known_lines:
         print(ln)
     for ln in viol_lines:
@@ -234,6 +279,9 @@ def main(argv=None):
         for nm, d in crashes[:5]:
             print('CHECKER-ERROR %s\n%s' % (nm, d[-3000:]))
 
+    n_known = sum(1 for o in obligations if o['name'] in known_names)
+    obligations_all = obligations
+    obligations = [o for o in obligations if o['name'] not in known_names]   # recorded findings are reported apart
     n_obl = len(obligations)
     n_dis = sum(1 for o in obligations if o['status'] == 'proved')
     if n_obl == 0 and not bounded:
@@ -268,6 +316,7 @@ def main(argv=None):
             'lemmas': sorted(set(lr_['name'] for lr_ in lemma_results)),
             'undecided': [u[0] for u in still_undecided],
             'known_findings': sorted(known_names),
+            'known_finding_obligations_not_counted': n_known,
             'bounded': bounded,
             'samples': samples,
             'evaluations': max(1, n_obl + sum(b.get('cases', 0) for b in bounded)),
